@@ -51,7 +51,7 @@ var kindBatch = [nKinds]int{kBoxR: 12, kBoxSR: 12, kParamSets: 6, kSlice: 4, kSE
 var kindClass = [nKinds]string{"file", "file", "file", "box", "box", "file", "file", "file", "file", "file", "file", "file",
 	"psets", "sample", "sei", "annexb|sample", "sample", "file", "file"}
 
-var kindVariants = [nKinds]int{kDecodeR: 2, kBoxR: 2, kSEI: 2, kInfo: 5, kEncode: 4, kEncodeSW: 2, kEncrypt: 8, kSidx: 2, kFragmentify: 2, kAnnexB: 1, kParamSets: 2}
+var kindVariants = [nKinds]int{kDecodeR: 2, kDecodeLazy: 2, kBoxR: 2, kSEI: 2, kInfo: 5, kEncode: 4, kEncodeSW: 2, kEncrypt: 8, kSidx: 2, kFragmentify: 2, kAnnexB: 1, kParamSets: 2}
 
 var infoLevels = []string{"", "all:1", "trun:1,stsz:1,senc:1,sidx:1", "all:2", "stss:1,ctts:1,stts:1,all:0"}
 
@@ -181,7 +181,12 @@ func opDecodeSR(pl *pool, in *input, _ int) (uint64, error) {
 	return mix(deepHash(f), f.Size()), nil
 }
 
-func opDecodeLazy(pl *pool, in *input, _ int) (uint64, error) {
+// plainWriter exposes Write only (no ReadFrom, no WriteByte, no WriteString).
+type plainWriter struct{ buf *bytes.Buffer }
+
+func (p plainWriter) Write(b []byte) (int, error) { return p.buf.Write(b) }
+
+func opDecodeLazy(pl *pool, in *input, variant int) (uint64, error) {
 	rs := bytes.NewReader(in.data)
 	f, err := mp4.DecodeFile(rs, mp4.WithDecodeMode(mp4.DecModeLazyMdat))
 	if err != nil {
@@ -199,7 +204,11 @@ func opDecodeLazy(pl *pool, in *input, _ int) (uint64, error) {
 			}
 			var w bytes.Buffer
 			ws := make([]byte, 4096)
-			if err := f.CopySampleData(&w, rs, trak, 1, n, ws); err != nil {
+			var dst io.Writer = &w
+			if variant == 1 {
+				dst, ws = plainWriter{&w}, nil
+			}
+			if err := f.CopySampleData(dst, rs, trak, 1, n, ws); err != nil {
 				return 0, err
 			}
 			h = mix(h, bytesHash(w.Bytes()))
@@ -223,6 +232,16 @@ func opDecodeLazy(pl *pool, in *input, _ int) (uint64, error) {
 					return 0, err
 				}
 				h = mix(h, bytesHash(b))
+				// the whole payload through CopyData into a writer with and without ReadFrom
+				var cw bytes.Buffer
+				var dst io.Writer = &cw
+				if variant == 1 {
+					dst = plainWriter{&cw}
+				}
+				if _, err := frag.Mdat.CopyData(int64(frag.Mdat.PayloadAbsoluteOffset()), int64(frag.Mdat.GetLazyDataSize()), rs, dst); err != nil {
+					return 0, err
+				}
+				h = mix(h, bytesHash(cw.Bytes()))
 			}
 		}
 	}
